@@ -1602,6 +1602,9 @@ def convert_lrelu_to_mul_max(op, arch):
         if alpha_dtype == DataType.int32:
             # When the datatype is int32 (alpha negative) we need to do the scaling with the multiplication
             scalar, _ = scaling.elementwise_mul_scale(ifm.quantization.scale_f32, alpha, ofm.quantization.scale_f32)
+            # The sign is carried by the scalar. The scale of the constant only supplies the shift of the int32 Mul
+            # (the multiplier of OFM_SCALE is not used for int32) and must be a value the unsigned register can hold
+            quantization.scale_f32 = np.float32(abs(alpha))
         else:
             scalar = 1
     alpha_tens = create_const_tensor(op.name + "_alpha_scalar", [1], alpha_dtype, [scalar], quantization=quantization)
